@@ -29,6 +29,10 @@ def cases(rng, tier):
     # corpus: one short run of every profile
     for i, p in enumerate(mc.PROFILES):
         out.append(dict(seed=1000 + i, n=80, profile=p))
+    # hostile participants: several fixed walks (a third side posting unusable PAKE bodies and undecryptable bytes, with
+    # and without an honest peer)
+    for i in range(12 if tier == "quick" else 60):
+        out.append(dict(seed=2000 + i, n=70, profile="third-alone" if i % 3 else "third"))
     for _ in range(n):
         out.append(dict(seed=rng.randrange(10**9), n=rng.choice([30, 60, 120, 200]), profile=rng.choice(mc.PROFILES)))
     return out
@@ -77,7 +81,7 @@ def explicit(case):
     if "ops" in case:
         return case
     ops, ob, summary = mc.guided(case["seed"], case["n"], case["profile"])
-    npeers = 0 if case["profile"] in ("lonely", "fail-initial", "welcome-error") else (2 if case["profile"] == "crowded" else 1)
+    npeers = 0 if case["profile"] in ("lonely", "fail-initial", "welcome-error", "third-alone") else (2 if case["profile"] == "crowded" else 1)
     return dict(ops=ops, seed=case["seed"], npeers=npeers, profile=case["profile"],
                 welcome_error="please upgrade" if case["profile"] == "welcome-error" else None)
 
